@@ -292,7 +292,7 @@ def module_spec(P, name, sch, defs, probe_disc, path):
             fails.append((k, w))
 
     def other_exec_failure(x, tag):
-        if P.has_not_schema(inp) or any(P.has_not_schema(d) for d in inp_defs.values()):
+        if P.not_schema_symptom(x) and (P.has_not_schema(inp) or any(P.has_not_schema(d) for d in inp_defs.values())):
             fails.append(("C09/exec/not-schema", "a draft-4 'not' (schema valued) is generated as NotField(fields=<field>): "
                                                  "%s at exec: %s" % (x[1], x[2])))
         elif shadowed(inp_defs):
